@@ -19,11 +19,13 @@ if TYPE_CHECKING:
 
 
 class _Processor:
-    __slots__ = ("_conn", "_processed")
+    __slots__ = ("_actor_run", "_conn", "_processed")
 
     def __init__(self, _conn: Connection) -> None:
         self._conn = _conn
-        self.actor_run._repid_signal_emitter = self._conn.middleware.emit_signal
+        # a wrapper per processor: the class-level one is shared by every connection in the process
+        self._actor_run = middleware_wrapper(self.actor_run.fn, name="actor_run")
+        self._actor_run._repid_signal_emitter = self._conn.middleware.emit_signal
         self._processed = 0
 
     async def get_payload(self, initial_payload: str) -> str:
@@ -213,7 +215,7 @@ class _Processor:
     ) -> None:
         raw_payload = await self.get_payload(payload)
 
-        result = await self.actor_run(actor, key, parameters, raw_payload, self._conn)
+        result = await self._actor_run(actor, key, parameters, raw_payload, self._conn)
         if result.reporting_done:  # actor has finished gracefully, but no action is required
             self._processed += 1
             return
